@@ -18,7 +18,7 @@ import (
 )
 
 type pqOp struct {
-	Kind string `json:"k"` // push pop min fix remove
+	Kind string `json:"k"` // push pop min fix remove | pushmany (100 + 40*Pick items) popmany (40*Pick items, each checked)
 	Prio int    `json:"p"`
 	Pick int    `json:"i"`
 }
@@ -38,8 +38,16 @@ var pqKinds = []string{"push", "push", "push", "pop", "min", "fix", "remove"}
 func pqGen(t *rapid.T) interface{} {
 	c := &pqCase{Desc: lib.Bool(t, "desc"), SetIndex: lib.IntN(t, 0, 3, "setIndex") > 0}
 	n := lib.IntN(t, 1, 60, "nops")
+	bulk := lib.IntN(t, 0, 7, "bulk") == 0 // a queue that grows to hundreds or thousands of items and is drained again
 	for i := 0; i < n; i++ {
+		if bulk && lib.IntN(t, 0, 5, "bulkOp") == 0 {
+			c.Ops = append(c.Ops, pqOp{Kind: lib.PickStr(t, []string{"pushmany", "popmany", "popmany"}, "bulkKind"), Prio: lib.IntN(t, 0, 6, "prio"), Pick: lib.IntN(t, 0, 63, "pick")})
+			continue
+		}
 		c.Ops = append(c.Ops, pqOp{Kind: lib.PickStr(t, pqKinds, "kind"), Prio: lib.IntN(t, 0, 6, "prio"), Pick: lib.IntN(t, 0, 63, "pick")})
+	}
+	if bulk {
+		c.Ops = append([]pqOp{{Kind: "pushmany", Prio: 3, Pick: lib.IntN(t, 0, 63, "firstBulk")}}, c.Ops...)
 	}
 	return c
 }
@@ -59,7 +67,7 @@ func pqCheck(ci interface{}) lib.Outcome {
 	q := NewQueue(less, setIndex)
 	var model []*pqItem
 	nextID := 0
-	fixes, removes, pops := 0, 0, 0
+	fixes, removes, pops, maxLen := 0, 0, 0, 0
 	isMinimal := func(x *pqItem) bool {
 		for _, m := range model {
 			if less(m, x) {
@@ -86,6 +94,32 @@ func pqCheck(ci interface{}) lib.Outcome {
 			nextID++
 			q.Push(it)
 			model = append(model, it)
+		case "pushmany":
+			for k := 0; k < 100+40*(op.Pick%64); k++ {
+				it := &pqItem{id: nextID, prio: (k*7 + op.Prio) % 50, idx: -1}
+				nextID++
+				q.Push(it)
+				model = append(model, it)
+			}
+		case "popmany":
+			for k := 0; k < 40*(op.Pick%64) && len(model) > 0; k++ {
+				x, ok := q.Pop().(*pqItem)
+				if !ok || x == nil {
+					return fail(i, op, "Pop returned a foreign value")
+				}
+				j := find(x)
+				if j < 0 {
+					return fail(i, op, fmt.Sprintf("Pop %d of the run returned item %d which is not queued (any more)", k, x.id))
+				}
+				if !isMinimal(x) {
+					return fail(i, op, fmt.Sprintf("Pop %d of the run returned prio %d but a smaller element is queued", k, x.prio))
+				}
+				model = append(model[:j], model[j+1:]...)
+				pops++
+				if q.Len() != len(model) {
+					return fail(i, op, fmt.Sprintf("after pop %d of the run Len = %d, model %d", k, q.Len(), len(model)))
+				}
+			}
 		case "pop":
 			if len(model) == 0 {
 				continue
@@ -133,6 +167,9 @@ func pqCheck(ci interface{}) lib.Outcome {
 			removes++
 		default:
 			return lib.Outcome{Skip: "malformed"}
+		}
+		if len(model) > maxLen {
+			maxLen = len(model)
 		}
 		if q.Len() != len(model) {
 			return fail(i, op, fmt.Sprintf("Len = %d, model %d", q.Len(), len(model)))
@@ -196,6 +233,11 @@ func pqCheck(ci interface{}) lib.Outcome {
 	if !c.SetIndex {
 		o.Classes = append(o.Classes, "no-setIndex")
 	}
+	if maxLen >= 1024 {
+		o.Classes = append(o.Classes, "queue-grew-beyond-1024-items")
+	} else if maxLen >= 100 {
+		o.Classes = append(o.Classes, "queue-grew-beyond-100-items")
+	}
 	if o.Nontrivial {
 		b, _ := json.Marshal(c)
 		o.FP = string(b)
@@ -241,7 +283,7 @@ func pqEnum(yield func(interface{}) bool) {
 
 func TestVerif_C20_PQRandom(t *testing.T) {
 	lib.Run(t, lib.Spec{ID: "C20", Part: "pq-random",
-		Rule: "1-60 operations (push/pop/min/fix/remove, priorities 0-6 with duplicates, both comparator directions, with and without setIndex) against a list model; non-trivial = at least two pops/drains and (a Fix or Remove through a reported index, or no setIndex); distinct = distinct op sequence",
+		Rule: "1-60 operations (push/pop/min/fix/remove, priorities 0-6 with duplicates; one case in eight also pushes 100-2620 items at once and pops runs of up to 2520, both comparator directions, with and without setIndex) against a list model; non-trivial = at least two pops/drains and (a Fix or Remove through a reported index, or no setIndex); distinct = distinct op sequence",
 		New:  func() interface{} { return &pqCase{} }, Gen: pqGen, Check: pqCheck})
 }
 
